@@ -13,8 +13,8 @@ import ast
 from sa.util import *
 from sa import pyeval
 R = "textx/scoping/rrel.py"
-def r_C12eval(root):
-    out = []; inst = 0
+def rrel_builder(root):
+    """(class table, base environment, build(spec) -> tree built by interpreting the visitor, parse_spec(text) -> spec)"""
     t = load(root, R)
     cds = {c.name: c for c in t.body if isinstance(c, ast.ClassDef)}
     for need in ("RRELVisitor", "RRELNavigation", "RRELParent", "RRELBrackets", "RRELDots", "RRELSequence", "RRELZeroOrMore", "RRELPath", "RRELExpression"):
@@ -97,6 +97,10 @@ def r_C12eval(root):
         s_ = seq()
         if pos[0] != len(text): raise AnalysisError("sample expression %r: trailing text at %d" % (text, pos[0]))
         return ("expr", s_, flags)
+    return cds, base_env, build, parse_spec
+def r_C12eval(root):
+    out = []; inst = 0
+    cds, base_env, build, parse_spec = rrel_builder(root)
     # (written form, canonical print)
     SAMPLES = [("a", None), ("~a", None), ("a.b.c", None), ("a.~b", None), ("'x y'~a.b", None), ("''~a", None), ("parent(T).a", None), ("..a", None), ("...", None), (".", None),
                ("a,b", None), ("a.b,~c", None), ("(a)", None), ("(a,b).c", None), ("a.(b).c", None), ("(a)*", None), ("(a.b)*.c", None), ("(..)*.a", None),
